@@ -259,3 +259,17 @@ CLAIMS["C16"] = {
             "while the expansion uses startswith(fe + '_'); they differ only if one effect name is a prefix of another. The "
             "conformal callers' slices are decided in C04.R6 / C05.R3.",
 }
+
+CLAIMS["C15"] = {
+    "technique": "def-use terms of GaussianModel.fit (recursion), of the matching loop and of the bound formulas, matched structurally; "
+                 "slice arithmetic and formulas compared as rational functions; frame algebra for the assigned bound columns",
+    "level": "Decides for every group structure, level and alpha: the threshold min(10, n_cal), the trigger '< T' and the "
+             "complementary selection '>= T'; small groups fall back to the fit one level up on ALL calibration data, large groups "
+             "keep their own fit on their own units; counts include groups that exist only among nonreporting units; empty "
+             "calibration -> empty model; the matching loop pairs each not-yet-matched group with the models whose last i key "
+             "levels are null via the parent keys, with a guarded cross join at the top, accumulating matches; calibration "
+             "statistics (baseline-weighted median, beta x bootstrapped sigma at (3+alpha)/4, inflation) and the unit / aggregate "
+             "bound formulas with W, SS and the inflation term; the weighted-median definition.",
+    "note": "Not decided: finiteness of the bootstrapped scale (numeric) and that exactly one model row survives per group for "
+            "every data set beyond what the structure of the loop implies (argument in DESIGN.md C15.R3).",
+}
